@@ -4,7 +4,7 @@
    the surface syntax of an abstract program under a style number, and
    Meaning.meaning what the program denotes, computed without gmars. *)
 From GM Require Import Base Text Token Lexer Scanner ExprSpec ExprEval Parser Compile Sim Prog Meaning Render AsmSpec
-     C03Proof C03Lexer C06Proof C09Proof C09GenCompile C09GenLex C08Proof C08Block C08Scan C08Passes C03Equ C03Parse C03Compile C03Labels C03EquCompile C03EquLabels C08Flat C03Flat.
+     C03Proof C03Lexer C06Proof C09Proof C09GenCompile C09GenLex C08Proof C08Block C08Scan C08Passes C03Equ C03Parse C03Compile C03Labels C03EquCompile C03EquLabels C08Flat C03Flat C03Blocks.
 From Coq Require Import Lia.
 Open Scope Z_scope.
 
@@ -564,8 +564,77 @@ Proof.
 Qed.
 End C03CounterExample.
 
-(* missing from C03_full_statement: that the token-level relation `unrolls` holds between the rendering of every abstract
-   program with FOR blocks and the rendering of its Render.unroll (C08), ;assert lines (C07), and EQU definitions together
-   with an END line.  These, and the composition of all of them, are decided on every run by the
+(* ... AND ANY NUMBER OF SUCH BLOCKS, one after another (C03Blocks: induction over the blocks; each block with or without a
+   counter, count >= 1 evaluated over the EQU symbols in front of it - which by then include those of the written-out earlier
+   blocks' lines; not nested, no block labels, bodies of unlabelled instruction and comment lines): when the document with every
+   block written out renders a program with a meaning, the text with the blocks is assembled to that meaning *)
+Theorem C03_programs_with_blocks_partial :
+  forall spell, (forall id, spell id <> []) ->
+  forall cfg org (its : list Prog.item) bs last lead nm au code start inp toks rkN,
+    let es := blocks_doc bs last in
+    validate cfg = true ->
+    spell_ok spell (flat_map il_labels (instrs its) ++ map fst (equs its)) ->
+    renders_doc2 spell org its es -> shape2_ok es -> Forall (fun xk => (1 <= snd xk)%nat) es ->
+    ranked spell (equs its) rkN ->
+    bodies_known cfg its ->
+    meaning (mconf_of cfg) (mkProg its org None nm au []) = MOk code start ->
+    Forall words_ok bs -> counts_ok cfg lead [] bs -> (length bs <= max_for_passes)%nat ->
+    lex_ascii inp = Some toks -> counts_modelled toks None = true ->
+    toks = repeat nl_tok lead ++ blocks_rest bs last ++ [tEOF] ->
+    compile_warrior cfg inp = COk code start (dmeta (mkPM [] [] []) es).
+Proof. exact blocks_program. Qed.
+Print Assumptions C03_programs_with_blocks_partial.
+
+Module C03BlocksExample.
+Import C03ForExample C03CounterExample.
+Definition l_jmp := mkIL [] JMP None (mkOp None (NName 10)) None.
+Definition its : list Prog.item :=
+  [ IEqu 20 (NLit 2); IInstr l_mov; IInstr (l_addj 1); IInstr (l_addj 2); IInstr (l_addj 3); IInstr l_jmp; IInstr l_jmp; IInstr l_dat ].
+Definition body2 : list (lelem * nat) :=
+  [ (LComment (s2t "; twice"), 1%nat); (LInstr (mkTL [] (s2t "jmp") None (etoks spell (NName 10)) None None), 1%nat) ].
+Definition bs : list blk :=
+  [ mkBlk es1 (Some (s2t "i")) (T (s2t "for")) (etoks spell e_count) bodyEs (T (s2t "rof")) [] 2;
+    mkBlk [] None (T (s2t "for")) (etoks spell (NLit 2)) body2 (T (s2t "rof")) [] 1 ].
+Definition source : text :=
+  s2t "step equ 2" ++ [10%N] ++ s2t "start mov bomb, @step" ++ [10%N] ++ s2t "i for step+1" ++ [10%N]
+  ++ s2t "  add #i, start+i" ++ [10%N] ++ s2t "  rof" ++ [10%N] ++ s2t " for 2" ++ [10%N] ++ s2t "; twice" ++ [10%N]
+  ++ s2t "  jmp start" ++ [10%N] ++ s2t " rof" ++ [10%N] ++ s2t "bomb dat #0, #0" ++ [10%N].
+Definition code : list instr :=
+  [mkI MOV mI 6 DIRECT 2 B_INDIRECT; mkI ADD mAB 1 IMMEDIATE 0 DIRECT; mkI ADD mAB 2 IMMEDIATE 0 DIRECT;
+   mkI ADD mAB 3 IMMEDIATE 0 DIRECT; mkI JMP mB 7996 DIRECT 0 DIRECT; mkI JMP mB 7995 DIRECT 0 DIRECT; mkI DAT mF 0 IMMEDIATE 0 IMMEDIATE].
+
+Example conclusion : compile_warrior cfg94 source = COk code 0 (dmeta (mkPM [] [] []) (blocks_doc bs es2)).
+Proof.
+  assert (Hne : forall id, spell id <> []) by (intros id; unfold spell, C03EquExample.spell; repeat (destruct (_ =? _)%N); discriminate).
+  apply (C03_programs_with_blocks_partial spell Hne cfg94 None its bs es2 0%nat None None code 0%Z source
+           (repeat nl_tok 0 ++ blocks_rest bs es2 ++ [tEOF]) rkN); try reflexivity.
+  - constructor.
+    + repeat split; reflexivity.
+    + intros id Hid. cbn in Hid. destruct Hid as [<-|[<-|[<-|[]]]]; (split; [reflexivity|]); cbn; intros H;
+        repeat (destruct H as [H|H]; [discriminate H|]); exact H.
+    + intros a b Ha Hb. cbn in Ha, Hb. destruct Ha as [<-|[<-|[<-|[]]]], Hb as [<-|[<-|[<-|[]]]]; try reflexivity; intros H; discriminate H.
+    + cbn. repeat constructor; cbn; intuition discriminate.
+    + intros id. unfold spell, C03EquExample.spell. repeat (destruct (_ =? _)%N); discriminate.
+  - apply R2equ; [reflexivity|reflexivity|repeat constructor; cbn; lia|].
+    apply R2instr; [repeat split; reflexivity|].
+    do 3 (apply R2instr; [repeat split; try reflexivity; cbn; lia|]).
+    do 2 (apply R2comment; [reflexivity|]; apply R2instr; [repeat split; reflexivity|]).
+    apply R2instr; [repeat split; try reflexivity; cbn; lia|apply R2nil].
+  - repeat constructor.
+  - repeat constructor.
+  - intros n e Hin x Hx. cbn in Hin. destruct Hin as [Hin|[]]. inversion Hin; subst n e. destruct Hx.
+  - unfold bodies_known. cbn [equs its]. repeat constructor.
+  - constructor; [|constructor; [|constructor]]; unfold words_ok; cbn;
+      repeat (split; try reflexivity); repeat constructor; cbn; try discriminate.
+  - cbn [counts_ok bs b_front b_count b_n]. split; [|split; [|exact I]];
+      intros syms H; vm_compute in H; inversion H; subst syms; vm_compute; reflexivity.
+  - unfold max_for_passes. cbn. lia.
+Qed.
+End C03BlocksExample.
+
+(* missing from C03_full_statement: FOR blocks that are nested, carry block labels or have labelled lines in their bodies
+   (for these the relation `unrolls` is a hypothesis, C03_programs_with_for_partial; for blocks in sequence without them it
+   is constructed, C03_programs_with_blocks_partial), the identification of the written-out document with the rendering of
+   Render.unroll (C08), ;assert lines (C07), and EQU definitions together with an END line.  These, and the composition of all of them, are decided on every run by the
    two-stage correspondence: generated abstract programs are rendered under several styles by the extracted
    Render, assembled by gmars and by the extracted model, and compared with the extracted Meaning. *)
